@@ -88,7 +88,8 @@ func (w *world) mapRanges(pkgs []*packages.Package) [][2]string {
 				_ = u
 			}
 			if isMap {
-				count[[2]string{s.name, exprDesc(rs.X)}]++
+				// the ranged map is named by its TYPE, not by the expression: renaming a local variable is not a new range
+				count[[2]string{s.name, types.TypeString(tv.Type, func(p *types.Package) string { return p.Name() })}]++
 			}
 			return true
 		})
@@ -921,6 +922,121 @@ func (w *world) seqReach(storeWriters [][3]string) [][2]string {
 			}
 		}
 		up(e[2], 0)
+	}
+	return out.sorted()
+}
+
+
+// ---------------------------------------------------------------------------
+// call graph of the module's own functions and lifting of facts to entry points
+
+type callGraph struct {
+	usedBy map[string]map[string]bool // site name -> names of the sites that refer to it (directly or through a module interface)
+}
+
+func (w *world) callGraph() *callGraph {
+	if w.cg != nil {
+		return w.cg
+	}
+	sites := w.sites(w.modPkgs)
+	declOf := map[*types.Func]string{}
+	methodsByName := map[string][]*types.Func{}
+	for _, s := range sites {
+		if s.decl == nil {
+			continue
+		}
+		if fn, ok := s.pkg.TypesInfo.Defs[s.decl.Name].(*types.Func); ok {
+			declOf[fn] = s.name
+			if sig, ok := fn.Type().(*types.Signature); ok && sig.Recv() != nil {
+				methodsByName[fn.Name()] = append(methodsByName[fn.Name()], fn)
+			}
+		}
+	}
+	g := &callGraph{usedBy: map[string]map[string]bool{}}
+	edge := func(callee, caller string) {
+		if callee == caller || callee == "" {
+			return
+		}
+		if g.usedBy[callee] == nil {
+			g.usedBy[callee] = map[string]bool{}
+		}
+		g.usedBy[callee][caller] = true
+	}
+	for _, s := range sites {
+		info := s.pkg.TypesInfo
+		ast.Inspect(s.root, func(n ast.Node) bool {
+			id, ok := n.(*ast.Ident)
+			if !ok {
+				return true
+			}
+			fn, ok := info.Uses[id].(*types.Func)
+			if !ok {
+				return true
+			}
+			if callee, ok := declOf[fn]; ok {
+				edge(callee, s.name)
+				return true
+			}
+			sig, ok := fn.Type().(*types.Signature)
+			if !ok || sig.Recv() == nil || fn.Pkg() == nil || !w.inModule(fn.Pkg().Path()) {
+				return true
+			}
+			iface, ok := sig.Recv().Type().Underlying().(*types.Interface)
+			if !ok {
+				return true
+			}
+			for _, m := range methodsByName[fn.Name()] {
+				rt := m.Type().(*types.Signature).Recv().Type()
+				if types.Implements(rt, iface) || types.Implements(types.NewPointer(deref(rt)), iface) {
+					edge(declOf[m], s.name)
+				}
+			}
+			return true
+		})
+	}
+	w.cg = g
+	return g
+}
+
+// isEntry: where the application (or a generated service descriptor) hands control to the module — functions nothing
+// else in the module refers to, block hooks, genesis, request processors, proposal handlers.
+func (g *callGraph) isEntry(name string) bool {
+	return strings.HasSuffix(name, ".InitGenesis") || strings.HasSuffix(name, ".ExportGenesis") || strings.HasSuffix(name, ".EndBlocker") ||
+		strings.HasSuffix(name, ".BeginBlocker") || strings.HasSuffix(name, "Request") || strings.HasSuffix(name, "ProposalHandler") ||
+		strings.HasSuffix(name, ".<pkg-init>") || strings.HasSuffix(name, ".<type-decl>") || len(g.usedBy[name]) == 0
+}
+
+// entriesOf: the entry points from which the site is reachable
+func (g *callGraph) entriesOf(site string) []string {
+	roots := map[string]bool{}
+	seen := map[string]bool{}
+	var up func(n string, depth int)
+	up = func(n string, depth int) {
+		if seen[n] {
+			return
+		}
+		seen[n] = true
+		if g.isEntry(n) || depth > 8 {
+			roots[n] = true
+			return
+		}
+		for c := range g.usedBy[n] {
+			up(c, depth+1)
+		}
+	}
+	up(site, 0)
+	return sortedKeys(roots)
+}
+
+// nondetReach: nondetUses lifted to entry points: (entry point, what) — renaming or splitting the helper that reads the
+// clock does not change it.
+func (w *world) nondetReach(uses [][2]string) [][2]string {
+	g := w.callGraph()
+	out := set2{}
+	for _, u := range uses {
+		for _, e := range g.entriesOf(u[0]) {
+			out[[2]string{e, u[1]}] = true
+		}
 	}
 	return out.sorted()
 }
